@@ -45,17 +45,18 @@ def _first(evs, pred):
 
 
 def _cor_c06(evs):
-    """binding self-test (P1): the delivery behind a stored chunk is recorded as invalid"""
-    for i, e in enumerate(evs):
-        if e.get("op") == "dlv" and e.get("cls") == "valid" and not e.get("lost") and not e.get("werr"):
-            # a put of that chunk by the requester must follow in the same scenario
-            for j in range(i + 1, len(evs)):
-                f = evs[j]
-                if f.get("op") == "reset":
-                    break
-                if f.get("op") == "put" and f.get("n") == e["p"] and f.get("c") == e["c"]:
-                    e["cls"] = "invalid"
-                    return j
+    """binding self-test (P1): the only valid delivery behind a stored chunk is recorded as invalid"""
+    for j, f in enumerate(evs):
+        if f.get("op") != "put":
+            continue
+        k = j
+        while k > 0 and evs[k].get("op") not in ("get", "reset"):
+            k -= 1
+        ds = [e for e in evs[k:j] if e.get("op") == "dlv" and e.get("p") == f["n"] and e.get("c") == f["c"]
+              and e.get("cls") == "valid" and not e.get("lost") and not e.get("werr")]
+        if len(ds) == 1:
+            ds[0]["cls"] = "invalid"
+            return j
     return None
 
 
